@@ -106,7 +106,9 @@ func vrtFilteredAttributes(u *vrtUser, requested []saml.AttributeType, got []*sa
 }
 
 func HarnessAttrQuery() {
-	faults := vrtProp("C10") || vrtProp("C09")
+	// bound profiles: C10 opens the storage faults and key-material shapes (and asserts the absence of
+	// panics under them), C09 opens the message and metadata structure with nominal storage
+	faults := vrtProp("C10")
 	st := &vrtStore{noFaults: !faults, keyShapes: faults}
 	st.respCert, st.respKey = vrtIdPKeyPair("idpkey")
 	if !faults {
@@ -114,7 +116,14 @@ func HarnessAttrQuery() {
 		vrtAssume(vrtBool("idpkey.match"))
 	}
 	full := vrtProp("C12") && vrtThorough()
-	st.user = vrtNewUserMode("user", full, true, vrtBound("custom attributes of the user", 1, 2), vrtBound("values per custom attribute", 1, 2))
+	if vrtProp("C09") {
+		// profile of C09: the message and metadata structure is open; the user record has no custom
+		// attributes and the configured algorithm is pinned (neither is dereferenced conditionally)
+		st.user = vrtNewUserMode("user", false, true, 0, 0)
+		vrtAssume(vrtBool("conf.sha1"))
+	} else {
+		st.user = vrtNewUserMode("user", full, true, vrtBound("custom attributes of the user", 1, 2), vrtBound("values per custom attribute", 1, 2))
+	}
 	sp, doc, regPanicked := vrtAttrSP(vrtProp("C12") && vrtThorough() || vrtProp("C09"))
 	vrtNominalSigAlg = !faults
 	if regPanicked {
